@@ -118,14 +118,9 @@ type SequenceRule struct {
 }
 
 func (sr *SequenceRule) sanitize(lookupCount uint16) error {
-	for _, rec := range sr.SeqLookupRecords {
-		if rec.SequenceIndex >= sr.glyphCount {
-			return fmt.Errorf("invalid sequence lookup table (input index %d >= %d)", rec.SequenceIndex, sr.glyphCount)
-		}
-		if rec.LookupListIndex >= lookupCount {
-			return fmt.Errorf("invalid sequence lookup table (lookup index %d >= %d)", rec.LookupListIndex, lookupCount)
-		}
-	}
+	// A record with a sequence index >= glyphCount or a lookup index >= lookupCount
+	// is not an error of the table: it is skipped when the rule is applied, as the
+	// records of the formats 2, 3 and of the chained contexts (and as Harfbuzz does).
 	return nil
 }
 
